@@ -8,7 +8,7 @@ from ..runner import Part
 PROPERTY = 'C13'
 LEVEL = 'model_checking'
 RULE = ('every sequence of <=k symbols over {connect-ok, connect-fail x {no keys, non-token challenge, silent device, transport connect error, device that answers the public key with another challenge}, close, shell, exec_out, '
-        'root, reboot, streaming_shell, creating a streaming_shell generator, draining a generator created earlier, list, stat, pull->existing path, pull->fresh path, pull->BytesIO, push, a push the device rejects, a pull of a missing file, shell with a blank command, and list/stat/pull/push with an empty path} on one object, both twins, executed on '
+        'root, reboot, streaming_shell, creating a streaming_shell generator, draining a generator created earlier, list, stat, pull->existing path, pull->fresh path, pull->BytesIO, push, a push the device rejects, a pull of a missing file, shell with a blank command, pull into a directory that does not exist, and list/stat/pull/push with an empty path} on one object, both twins, executed on '
         'the real device class; reference = the availability machine (True after connect-ok, False after close / any connect attempt that fails); oracle: operation '
         'while unavailable raises AdbConnectionError, empty path raises DevicePathInvalidError, in both cases zero bytes written to the transport and no local file '
         'created; `available` equals the machine flag after every step; operations while available return the model\'s ground truth. States = (machine flag, transport '
@@ -25,7 +25,7 @@ CONNECTS = {
 }
 FAIL_EXC = {'fail-nokeys': 'DeviceAuthError', 'fail-nontoken': 'InvalidResponseError', 'fail-silent': ('AdbTimeoutError', 'TcpTimeoutException'),
             'fail-transport': 'ConnectionRefusedError', 'fail-rechallenge': ('AdbTimeoutError', 'TcpTimeoutException')}
-OPS = ['shell', 'exec_out', 'root', 'reboot', 'streaming_shell', 'list', 'stat', 'pull', 'pull-path', 'pull-newpath', 'push', 'stream-drain', 'push-rejected', 'pull-missing', 'shell-blank']
+OPS = ['shell', 'exec_out', 'root', 'reboot', 'streaming_shell', 'list', 'stat', 'pull', 'pull-path', 'pull-newpath', 'push', 'stream-drain', 'push-rejected', 'pull-missing', 'shell-blank', 'pull-newdir']
 BLANK = ['', '  ', '\n']
 NEUTRAL = ['stream-create']
 EMPTY = ['list-empty', 'stat-empty', 'pull-empty', 'push-empty', 'push-dir-empty']
@@ -49,6 +49,8 @@ def op_for(sym, i):
         return ('pull', '/missing', 'bytesio')
     if sym == 'shell-blank':
         return ('shell', BLANK[i % 3], {'decode': False})
+    if sym == 'pull-newdir':
+        return ('pull', '/f', 'newdir')
     e = ['', b'', None][i % 3]
     if sym == 'push-dir-empty':
         return ('push', ('dir', {'a': b'x' * 10} if i % 2 else {}, 'elsewhere'), ['', b''][i % 2])
@@ -107,8 +109,8 @@ def run_seq(params, ch):
                         viol.append({'msg': 'step %d %s on an unavailable device gave %r, expected AdbConnectionError' % (i, sym, r[:2])})
                     if wrote:
                         viol.append({'msg': 'step %d %s on an unavailable device wrote %d bytes to the transport' % (i, sym, env.host_bytes - hb)})
-                    if created:
-                        viol.append({'msg': 'step %d %s on an unavailable device created a local file' % (i, sym)})
+                    if created or (sym == 'pull-newdir' and s.pull_dir_created):
+                        viol.append({'msg': 'step %d %s on an unavailable device created a local file or directory' % (i, sym)})
                     if sym == 'pull-newpath' and s.pull_file_state != 'absent':
                         viol.append({'msg': 'step %d pull on an unavailable device created the local destination file' % i})
                     if sym == 'pull-path' and s.pull_file_state != 'stale':
@@ -128,6 +130,8 @@ def run_seq(params, ch):
                         r = r[:2]
                     elif sym == 'shell-blank':
                         want = ('ok', b'out:' + BLANK[i % 3].encode())
+                    elif sym == 'pull-newdir':
+                        want = r           # connected: whether a missing local directory is an error is not C13's business
                     else:
                         want = scen.op_expected(sym, cfg)
                     if r != want:
